@@ -326,3 +326,22 @@ PROPS["C13"] = {
         Leg("script", "c13", "^TestScript$", engine="fault-injection", checks=(80, 700), shards=(16, 32), tests=["script"]),
     ],
 }
+
+PROPS["C15"] = {
+    "title": "Decoding and display are deterministic and free of hidden state",
+    "level": "exploration",
+    "technique": "property-based testing (rapid) of frame histories: differential against a fresh handler decoding the same frame first, repeated display, parallel handlers and fan-out consumers, with a -race leg",
+    "level_text": ("Generated-history exploration with a differential oracle: every frame of a drawn pool (all decodable types from the harness encoders, undecodable, "
+                   "cut-short and non-RTCM entries) must decode to deep-equal fields and identical text (MSM time lines removed) whether it is processed first, at any "
+                   "later position of a history through one handler, as part of a stream, by 2-8 handlers in parallel goroutines, or by appcore consumers that "
+                   "display, re-analyse, copy and scribble on their own message values; raw bytes are compared after the whole history. The -race leg turns hidden "
+                   "shared state into a detector report. Orders and schedules are sampled."),
+    "rule": ("Cases: (pool of 2-6 entries, history of 2-12 indices, 1/2/4/8 parallel handlers, log level, 0-3 consumer op scripts over {String, Analyse, PrepareForDisplay, "
+             "Copy, scribble-own-fields}). Non-trivial = history of at least 2 frames with 2 different message types, or parallel handlers; distinct = distinct case hash."),
+    "assumptions": ["the MSM time lines ('Time ...', 'Start of ...') are excluded as the statement says", "consumers never write to the shared RawData bytes (documented as shared read-only)", "Go race detector", "Go toolchain, rapid v1.3.0"],
+    "min_evals": {"quick": 1500, "thorough": 100000},
+    "legs": [
+        Leg("history", "c15", "^TestHistory$", checks=(1000, 10000), shards=(2, 12), tests=["history"]),
+        Leg("history-race", "c15", "^TestHistory$", engine="sched", race=True, checks=(200, 3000), shards=(2, 8), tests=["history"]),
+    ],
+}
